@@ -405,6 +405,11 @@ class ComposedNode(ConfigNode):
             if fix:
                 child._propagate_implicit_values()
 
+    def _propagate_priority(self):
+        for child in self._children.values():
+            child._priority = self._priority
+            child._propagate_priority()
+
     @classmethod
     def _is_composed(cls):
         return True
